@@ -408,6 +408,13 @@ class NeedDecision(Exception):
     """fold_paths: the scripted decisions are used up at a condition that stays symbolic."""
 
 
+def raised_by_code(e):
+    """A `Raised` that stands for what the analysed code does -- a `raise` / `assert` statement reached, or Python's own error on values the fold
+    holds concretely -- as opposed to one of the fold's own making: an attribute a stand-in object was not given."""
+    node = getattr(e, "node", None)
+    return isinstance(node, (ast.Raise, ast.Assert)) or getattr(e, "name", "") != "AttributeError"
+
+
 def fold_stmts(fo, stmts, env):
     """Fold statements one by one.  A statement outside the folding language is skipped -- and everything it may bind or modify (names,
     attributes and items of stand-in objects, receivers of method calls) is replaced by an `unknown` stand-in, so that nothing derived
